@@ -10,15 +10,15 @@ def hist(text, tech="model-based (stateful) property-based testing: generated op
     return ("hist", "exploration", tech, text, HIST_NOTE, "DESIGN.md sections 3.1-3.3 and 4")
 
 CHECKS = {
-    "C01": hist("Every callback of every generated history is judged: live registration, own unconsumed cause (ping count, channel FIFO head, live timer arming, poll(2)-confirmed fd readiness under the interest registered), own registration key. Search over histories is the natural level for a statement quantified over histories; absence is not shown."),
+    "C01": hist("Every callback of every generated history is judged: live registration, own unconsumed cause (ping count, channel FIFO head, live timer arming, poll(2)-confirmed fd readiness under the interest registered), own registration key. Search over histories is the natural level for a statement quantified over histories; absence is not shown. A bounded-exhaustive sub-check walks one slot through up to 65535 occupants (also inside one dispatch) and compares every token handed out with the first, stale one."),
     "C02": hist("Obligation snapshot at dispatch start (pings, queued messages / closed channels, expired timers, poll(2) readiness per interest and trigger mode) must be served by an Ok dispatch unless waived by an in-dispatch mutation; one-shot upper bound and edge lower bound over the history. Causes produced by another thread while the loop dispatches are covered by re-running the schedule families of C03/C04/C10 and keeping their lost-wake-up rules (sub-checks xthread.*).", "model-based (stateful) property-based testing: generated operation histories incl. in-callback programs, trace-checking reference monitor, proptest shrinking; plus generated thread schedules (cooperative scheduler over the yield hook) for cross-thread causes; thorough tier adds a coverage-guided libFuzzer campaign (cargo-fuzz, ASan) over the history grammar"),
     "C05": hist("Per-arming model of every timer: never early, event == current deadline, deadline order within a dispatch, window rule for 'first dispatch at or after the deadline', cancelled armings never fire, heap length == live armings after every step (statistics hook). Real monotonic clock; only order-insensitive window arguments are used."),
     "C06": hist("All removal paths, slot reuse, every stale token exercised; register/unregister call counts of instrumented sources show that dead tokens touch nothing; drop counters of sources, callbacks and idles are exactly one at the end; Dispatcher::into_source_inner must succeed after removal; loop/handle drop order both ways."),
     "C07": hist("No callback between disable and the next successful enable (also for events already in the batch), token stays valid, causes pending at enable are obligated afterwards, no registration call on any other source."),
     "C08": hist("Every LoopHandle operation issued from generated callback / idle programs (nested to depth 3) against the running source, batch neighbours, stale tokens and fresh inserts: no panic (caught at the dispatch boundary, attributed by location) and the same model effect as outside a dispatch."),
     "C09": hist("Instrumented sources count register/reregister/unregister calls; after each process_events return the effective post-action (explicit over deferred) must show exactly its calls on exactly that source and none on any other, including after Err returns and slot reuse inside the callback; the deferred cell is observed empty between events (statistics hook)."),
-    "C13": hist("Idle callbacks: exactly once, after all source callbacks of the first Ok dispatch, insertion order, idle-of-idle deferred to the next dispatch, cancelled never, failed dispatch runs none, closures dropped exactly once."),
-    "C14": hist("Lifecycle probes with several ping sub-sources and optional synthetic events: one before_sleep then one before_handle_events per live lifecycle source before any event processing, synthetic event delivered in the same dispatch and never shown to the iterator, iterator covers exactly own real events, lifecycle list == enabled lifecycle sources after every step incl. failed registrations."),
+    "C13": hist("Idle callbacks: exactly once, after all source callbacks of the first Ok dispatch, insertion order, idle-of-idle deferred to the next dispatch, cancelled never, failed dispatch runs none, closures dropped exactly once. The idle rule is also judged under run() / block_on() (deterministic in-loop family with a reference model: idles inserted by idles or by the per-iteration closure belong to the next iteration)."),
+    "C14": hist("Lifecycle probes with several ping sub-sources and optional synthetic events: one before_sleep then one before_handle_events per live lifecycle source before any event processing, synthetic event delivered in the same dispatch and never shown to the iterator, iterator covers exactly own real events, lifecycle list == enabled lifecycle sources after every step incl. failed registrations. A timing family over a lifecycle source with a Timer child and slow hooks compares iterator and processed events exactly."),
     "C15": ("hist", "fault_enumeration", "fault enumeration: every fault site (probe register sub-step / reregister / unregister / process_events / before_sleep call, in execution order) of each generated fault-free base history is failed in a run of its own; plus sampled fault injection inside random histories (scripted Err returns, bad fds, composites with a rejected child); trace-checking reference monitor; thorough tier adds a coverage-guided libFuzzer campaign over the same grammar and oracle", "Faults are injected at generated registration steps and event-processing calls of generated histories which then continue; the failing call must return its error, hand the source back, leave slots (occupied count, and list length never above the number of slots ever needed at once) / lifecycle list / kernel table as before, never make a later dispatch panic, and every cause pending before an Err must still be served afterwards. Sub-check 'positions' enumerates all fault positions of every generated base history (exhaustive per base history; the base histories themselves are sampled); sub-check 'hist' samples positions inside longer random histories.", HIST_NOTE, "DESIGN.md section 4 C15"),
     "C16": hist("After every step the kernel's epoll table (/proc/self/fdinfo) minus polling's own entries must equal the model's set of enabled fd registrations: keys for all, interest/mode bits and fd for Generic sources; released fds are re-inserted; several Generic sources may share one (borrowed) fd, at most one of them registered at a time; after a successful (re)registration of a composite every kept child holds a sub-token.", "model-based property-based testing with a kernel oracle (/proc/self/fdinfo epoll table) after every generated step; thorough tier adds a coverage-guided libFuzzer campaign over the same history grammar and oracle"),
     "C03": ("sched", "exploration", "schedule exploration: generated thread interleavings at yield-site granularity (cooperative scheduler over the hook, proptest-generated + bounded-exhaustive DFS schedules) plus a free-running stress sub-check (real concurrency, CLOCK_MONOTONIC oracle) and single-thread history PBT; logical-clock oracle", "Actor threads with ping/clone/drop programs against a dispatching loop thread; the interleaving of every eventfd write, drain read and handle drop is the generated input; every ping served by a later callback, at most one callback per dispatch, no callback without a ping that can have landed after the previous drain, clean self-removal when the last handle goes, no spinning afterwards. Plus ping histories through the history machine.", "schedules are explored at the granularity of the hook's yield sites on x86-TSO with the real atomics; weaker memory orderings and preemption inside a site-free region are out of reach; blocked threads are detected through /proc", "DESIGN.md sections 3.4 and 4 C03"),
